@@ -207,6 +207,14 @@ func main() {
 	if *prop == "C12" {
 		raceCompanion(r)
 	}
+	if *prop == "C05" {
+		// side pass of C05: hand the result to the plain driver, which writes the evidence
+		side := map[string]interface{}{"counters": counters, "notes": notes, "violations": r.Violations(), "samples": r.Samples()}
+		js, _ := json.Marshal(side)
+		os.WriteFile(harness.Root+"/bin/c05-steps.json", js, 0o644)
+		fmt.Printf("C05 step pass: families=%v calls=%d statements=%d violations=%d\n", notes["pumped_families"], counters["step_counted_calls"], counters["statements"], len(r.Violations()))
+		return
+	}
 	cov := finishers[*prop](r, counters, notes)
 	os.Exit(r.Finish(cov))
 }
